@@ -120,11 +120,11 @@ theorem reduce_denom_translated (l : Lattice) :
     SqiGen.QuatMat.quat_lattice_reduce_denom ibzGcd Int.tdiv Int.tmod Mat4.gcd (fun s m => (Mat4.scalarDiv s m).1)
       l.denom l.basis = ((latReduceDenom l).denom, (latReduceDenom l).basis) := rfl
 
+set_option maxHeartbeats 40000 in
 /-- tie T: the data flow of `quat_lattice_add`, `quat_lattice_hnf`, `quat_lattice_dual_without_hnf` as translated from
     lattice.c (which basis is scaled by which denominator, which half of the 4×8 HNF input each fills, the product of the
     denominators, the transpose / adjugate / determinant roles in the dual, the final reduce_denom) = the model
     (`quat_lattice_intersect` is the composition dual ∘ add ∘ (dual, dual) followed by hnf, modelled as such) -/
-set_option maxHeartbeats 40000 in
 theorem lattice_callers_translated (l1 l2 : Lattice) :
     SqiGen.QuatMat.quat_lattice_add (· * ·) Mat4.get Vec4.mk Mat4.scalarMul Mat4.transpose Mat4.invWithDet hnfCore
         (fun d b => ((latReduceDenom ⟨d, b⟩).denom, (latReduceDenom ⟨d, b⟩).basis)) l1.denom l1.basis l2.denom l2.basis
